@@ -57,25 +57,33 @@ def make_target(vo, timeout=1200):
     return rc == 0, out
 
 
-def build_driver():
-    src = os.path.join(COQ, "model.ml")
+def build_driver(tag):
+    """theories/Extract/Extract<Tag>.v writes coq/model_<tag>.ml(i); compile it with the generic
+    driver into ocaml/_build/<tag>/driver."""
+    src = os.path.join(COQ, f"model_{tag}.ml")
+    srci = os.path.join(COQ, f"model_{tag}.mli")
     if not os.path.exists(src):
-        return False, "model.ml missing (Extract.v did not build)"
-    bdir = os.path.join(OCAML, "_build")
+        return False, f"model_{tag}.ml missing (Extract{tag.capitalize()}.v did not build)"
+    bdir = os.path.join(OCAML, "_build", tag)
     os.makedirs(bdir, exist_ok=True)
     h = hashlib.sha256()
-    for p in (src, os.path.join(COQ, "model.mli"), os.path.join(OCAML, "driver.ml")):
+    for p in (src, srci, os.path.join(OCAML, "driver.ml")):
         h.update(open(p, "rb").read())
     stamp = os.path.join(bdir, "stamp")
     exe = os.path.join(bdir, "driver")
     if os.path.exists(stamp) and os.path.exists(exe) and open(stamp).read() == h.hexdigest():
         return True, "up to date"
-    for p in (src, os.path.join(COQ, "model.mli"), os.path.join(OCAML, "driver.ml")):
-        open(os.path.join(bdir, os.path.basename(p)), "wb").write(open(p, "rb").read())
+    for p, name in ((src, "model.ml"), (srci, "model.mli"), (os.path.join(OCAML, "driver.ml"), "driver.ml")):
+        open(os.path.join(bdir, name), "wb").write(open(p, "rb").read())
     rc, out = sh("ocamlfind ocamlopt -O3 -w -a model.mli model.ml driver.ml -o driver", cwd=bdir)
     if rc == 0:
         open(stamp, "w").write(h.hexdigest())
     return rc == 0, out
+
+
+def extract_tags():
+    return sorted(re.match(r"Extract(\w+)\.v", os.path.basename(p)).group(1).lower()
+                  for p in glob.glob(os.path.join(COQ, "theories/Extract/Extract*.v")))
 
 
 THEOREM_RE = re.compile(r"^\s*(Theorem|Corollary)\s+(\w+)", re.M)
@@ -132,14 +140,19 @@ def grep_gate():
     return bad
 
 
-def full_build(prop=None):
-    """Everything a check needs. Returns a dict describing the build."""
+def full_build(prop=None, tags=None):
+    """Everything a check needs. Returns a dict describing the build.
+    tags: extraction tags whose driver must be built (None = all)."""
     t0 = time.time()
     with Lock():
         rc, genout, untrans = regen()
         coqproject()
         ok, failed, log = make_all()
-        dok, dlog = build_driver()
+        dok, dlog = True, ""
+        for tag in (tags if tags is not None else extract_tags()):
+            o, l = build_driver(tag)
+            dok = dok and o
+            dlog += f"[{tag}] {l}\n"
         info = {"gen_rc": rc, "gen_out": genout, "untranslatable": untrans, "make_ok": ok,
                 "failed_vo": failed, "make_log_tail": log[-3000:], "driver_ok": dok, "driver_log": dlog[-2000:],
                 "gate": grep_gate()}
